@@ -203,7 +203,9 @@ def c152(ctx):
     for f in ctx.prog.fns.values():
         if f.crate in ("buffertk", "prototk") and f.impl_trait and strip_generics(f.impl_trait) == "buffertk::Unpackable" and f.name == "unpack":
             entries.append(f)
-        elif f.impl_trait and strip_generics(f.impl_trait) == "buffertk::Unpackable" and f.name == "unpack" and f.crate in ("sst", "lsmtk", "mani", "setsum", "tuple_key"):
+        elif f.impl_trait and strip_generics(f.impl_trait) == "buffertk::Unpackable" and f.name == "unpack" and \
+                (f.crate in ("sst", "lsmtk", "mani", "setsum", "tuple_key") or (ctx.tier == "thorough" and f.crate not in ("scrunch",))):
+            # thorough tier (whole workspace): every crate's derived or macro-generated decoder is an entry point too
             entries.append(f)
         elif f.skey in ("prototk::take_length_prefixed", "<prototk::FieldIterator as core::iter::traits::iterator::Iterator>::next", "prototk::unpack_as",
                         "prototk::unpack_from", "buffertk::Unpacker::unpack", "buffertk::Unpacker::take", "buffertk::Unpacker::advance"):
